@@ -645,8 +645,14 @@ impl Work {
             let body = CT_BODIES[i % CT_BODIES.len()];
             let quick = ctx.quick();
             for (xi, x) in CT_EXPRS.iter().enumerate() {
+              // the body alone, with a comment line between the body and the closing keyword, and with a
+              // comment behind the body statement: a comment must stop a collapse on both passes alike
+              for (vi, variant) in ["", "\n-- c9\n", " -- t9\n"].iter().enumerate() {
+                if vi > 0 && (xi % 3 != i % 3) {
+                    continue;
+                }
                 let b = body.replace('@', x);
-                let src = format!("{h0}{b}{h1}\n");
+                let src = if vi == 0 { format!("{h0}{b}{h1}\n") } else { format!("{h0}{b}{variant}{}\n", h1.trim_start()) };
                 for syntax in ["Lua51", "Luau"] {
                     for (ci, collapse) in ["Never", "FunctionOnly", "ConditionalOnly", "Always"].iter().enumerate() {
                         for (wi, w) in [120usize, 40, 24].iter().enumerate() {
@@ -662,7 +668,7 @@ impl Work {
                             f(
                                 ctx,
                                 &Eval {
-                                    id: format!("ct:{i}:{xi}:{syntax}:{collapse}:w{w}"),
+                                    id: format!("ct:{i}:{xi}{}:{syntax}:{collapse}:w{w}", ["", ":own-line-comment", ":trailing-comment"][vi]),
                                     src: src.clone(),
                                     cfg: c,
                                     range: None,
@@ -673,6 +679,7 @@ impl Work {
                         }
                     }
                 }
+              }
             }
         }
     }
